@@ -1,3 +1,50 @@
-import EspadaVerif.Model.Range
+/-
+C05 — Range notation parses to its standard poker meaning.
+
+`Spec.WfToken` / `Spec.WfToken.denote` (Spec/Notation.lean) are the notation and its meaning, written
+independently of the crate; the theorems say the model of the parser + expansion computes exactly that.
+-/
+import EspadaVerif.Lemmas.TokenFacts
+import EspadaVerif.Lemmas.RangeAux
+import EspadaVerif.Props.C09
+
 namespace EspadaVerif.C05
+open EspadaVerif TextDefs
+
+variable {W : Type}
+
+/-- the combos of an expansion as the specification sees them (pairs of card codes) -/
+def codesOf (es : List (Combo × W)) : List (Nat × Nat) := es.map fun e => comboCodes e.1
+
+/-- **C05 (token).** Every well-formed token, with or without a `:weight`, parses, and expands to exactly the
+combos it denotes in standard notation, each once, each carrying the token's weight (1 when omitted). -/
+theorem C05_token (wt : WText W) (hempty : wt.parseW [] = none) (t : Spec.WfToken) (ht : t.wf = true)
+    (suffix : Bytes) (hs : SuffixOk suffix) :
+    ∃ tok es, parseToken wt (t.text ++ suffix) = .ok tok ∧ tok.expand = .ok es
+      ∧ (codesOf es).Perm t.denote ∧ (codesOf es).Nodup ∧ ∀ e ∈ es, e.2 = suffixWeight wt suffix := by
+  sorry
+
+/-- the weight a list of tokens assigns to a combo: that of the LAST token denoting it -/
+def lastWeight (wt : WText W) (ts : List (Spec.WfToken × Bytes)) (c : Nat × Nat) : Option W :=
+  (ts.reverse.find? fun p => p.1.denote.contains c).map fun p => suffixWeight wt p.2
+
+/-- **C05 (list).** Parsing a comma-separated list of well-formed tokens, with spaces anywhere, yields exactly the
+combos the tokens denote; where tokens overlap the later token's weight applies; the empty list is the empty range. -/
+theorem C05_list (wt : WText W) (hempty : wt.parseW [] = none) (ts : List (Spec.WfToken × Bytes))
+    (hts : ∀ p ∈ ts, p.1.wf = true ∧ SuffixOk p.2) (s : Bytes)
+    (hs : stripSpaces s = joinCommas (ts.map fun p => p.1.text ++ p.2)) :
+    ∃ r, parseRange wt s = .ok r ∧ ∀ c : Combo, ComboOk c → r.lookup c = lastWeight wt ts (comboCodes c) := by
+  sorry
+
+/-- the empty string, and any string of spaces, is the empty range -/
+theorem C05_empty (wt : WText W) (s : Bytes) (h : ∀ b ∈ s, b = 32) : parseRange wt s = .ok [] := by
+  sorry
+
+/-- '44' / 'JTs' / '72o' denote 6 / 4 / 12 combos; 'QQ+' three pairs; 'A9s+' five kickers; '88-66' three pairs -/
+theorem C05_counts :
+    (Spec.WfToken.pocket 10).denote.length = 6 ∧ (Spec.WfToken.pair 3 4 true).denote.length = 4
+    ∧ (Spec.WfToken.pair 7 12 false).denote.length = 12 ∧ (Spec.WfToken.pocketPlus 2).denote.length = 18
+    ∧ (Spec.WfToken.pairPlus 0 5 true).denote.length = 20 ∧ (Spec.WfToken.pocketSpan 6 8).denote.length = 18
+    ∧ (Spec.WfToken.pairSpan 0 2 5 true).denote.length = 16 := by decide
+
 end EspadaVerif.C05
